@@ -690,7 +690,25 @@ def unroll_static_loops(func, tables: dict | None = None, ctables: dict | None =
         if isinstance(n, ast.Name) and isinstance(n.ctx, ast.Load):
             reads[n.id] = reads.get(n.id, 0) + 1
     func.body = _unroll_block(func.body, lits, frozenset(k for k, c in reads.items() if c == 1), attrs)
+    # an f-string whose holes were all replaced by string / integer constants (f"num_of_{'species'}" after unrolling a loop over a
+    # literal table) is the constant it prints
+    func.body = [_ConstFStr().visit(st) for st in func.body]
     return func
+
+
+class _ConstFStr(ast.NodeTransformer):
+    def visit_JoinedStr(self, n):
+        self.generic_visit(n)
+        parts = []
+        for v in n.values:
+            if isinstance(v, ast.Constant) and isinstance(v.value, str):
+                parts.append(v.value)
+            elif isinstance(v, ast.FormattedValue) and v.format_spec is None and v.conversion == -1 and isinstance(v.value, ast.Constant) \
+                    and (isinstance(v.value.value, str) or type(v.value.value) is int):
+                parts.append(str(v.value.value))
+            else:
+                return n
+        return ast.copy_location(ast.Constant(value="".join(parts)), n)
 
 
 # ------------------------------------------------------------------------------------------------------------ call inlining
@@ -2126,6 +2144,8 @@ class _IndexLoops(ast.NodeTransformer):
                                                                   and len(it.args) == 1 and not it.keywords):
             return n
         ln = it.args[0]
+        if isinstance(ln, ast.Name) and ln.id in getattr(self, "lens", {}):
+            ln = self.lens[ln.id]           # `n = len(X)` bound once, X never re-bound / mutated in the function: range(n) is range(len(X))
         if not (isinstance(ln, ast.Call) and isinstance(ln.func, ast.Name) and ln.func.id == "len" and len(ln.args) == 1 and not ln.keywords):
             return n
         X = ln.args[0]
@@ -2171,9 +2191,88 @@ class _IndexLoops(ast.NodeTransformer):
     visit_Lambda = visit_AsyncFunctionDef = visit_ClassDef = lambda self, n: n
 
 
+def _single_lens(func) -> dict:
+    """{n: the call len(X)} for the locals bound exactly once in the function, to `len(X)` with X a plain name / attribute chain whose
+    base name is bound at most once in the function and never mutated in place there (so len(X) means the same wherever n is read)"""
+    stores = {}
+    for x in ast.walk(func):
+        if isinstance(x, ast.Name) and isinstance(x.ctx, (ast.Store, ast.Del)):
+            stores[x.id] = stores.get(x.id, 0) + 1
+    mutated = _stored(func.body) - set(stores)
+    for x in ast.walk(func):
+        if isinstance(x, ast.Call) and isinstance(x.func, ast.Attribute) and x.func.attr in MUTATORS:
+            b = x.func.value
+            while isinstance(b, (ast.Subscript, ast.Attribute)):
+                b = b.value
+            if isinstance(b, ast.Name):
+                mutated.add(b.id)
+        elif isinstance(x, (ast.Subscript, ast.Attribute)) and isinstance(x.ctx, (ast.Store, ast.Del)):
+            b = x
+            while isinstance(b, (ast.Subscript, ast.Attribute)):
+                b = b.value
+            if isinstance(b, ast.Name):
+                mutated.add(b.id)
+    out = {}
+    for st in ast.walk(func):
+        if isinstance(st, ast.Assign) and len(st.targets) == 1 and isinstance(st.targets[0], ast.Name) and stores.get(st.targets[0].id) == 1 \
+                and isinstance(st.value, ast.Call) and isinstance(st.value.func, ast.Name) and st.value.func.id == "len" and len(st.value.args) == 1 and not st.value.keywords:
+            b = st.value.args[0]
+            while isinstance(b, ast.Attribute):
+                b = b.value
+            if isinstance(b, ast.Name) and stores.get(b.id, 0) <= 1 and b.id not in mutated and "len" not in stores:
+                out[st.targets[0].id] = st.value
+    return out
+
+
 def index_loops_to_enumerate(func):
     tr = _IndexLoops()
+    tr.lens = _single_lens(func)
     func.body = [tr.visit(st) for st in func.body]
+    return func
+
+
+# ------------------------------------------------------------------------------------------- keyword tables handed on with **
+
+def expand_kwargs_dicts(func):
+    """`opts = {"a": x, "b": y}` (or `dict(a=x, b=y)`), bound once, read only as `f(**opts)` later in the same statement list, nothing in
+    between re-binding a name the values read or mutating `opts`:  the call is `f(a=x, b=y)` and the table disappears.  The keyword
+    arguments of a call are then visible to rules that read them, however they were collected."""
+    def table(v):
+        if isinstance(v, ast.Dict) and v.keys and all(isinstance(k, ast.Constant) and isinstance(k.value, str) and k.value.isidentifier() for k in v.keys):
+            return [(k.value, x) for k, x in zip(v.keys, v.values)]
+        if isinstance(v, ast.Call) and isinstance(v.func, ast.Name) and v.func.id == "dict" and not v.args and v.keywords and all(k.arg for k in v.keywords):
+            return [(k.arg, k.value) for k in v.keywords]
+        return None
+
+    def block(stmts):
+        i = 0
+        while i < len(stmts):
+            st = stmts[i]
+            for fld in ("body", "orelse", "finalbody"):
+                b = getattr(st, fld, None)
+                if isinstance(b, list) and b and isinstance(b[0], ast.stmt) and not isinstance(st, (ast.FunctionDef, ast.AsyncFunctionDef, ast.ClassDef)):
+                    block(b)
+            if isinstance(st, ast.Assign) and len(st.targets) == 1 and isinstance(st.targets[0], ast.Name) and table(st.value) is not None:
+                name = st.targets[0].id
+                uses = [n for n in ast.walk(func) if isinstance(n, ast.Name) and n.id == name]
+                stars = [(j, c, k) for j in range(i + 1, len(stmts)) for c in ast.walk(stmts[j]) if isinstance(c, ast.Call)
+                         for k in c.keywords if k.arg is None and isinstance(k.value, ast.Name) and k.value.id == name]
+                if len(uses) == 2 and len(stars) == 1:
+                    j, call, kw = stars[0]
+                    pairs = table(st.value)
+                    reads = set().union(*[_loaded(v) for _, v in pairs]) if pairs else set()
+                    between = stmts[i + 1:j]
+                    given = {k.arg for k in call.keywords if k.arg}
+                    # (values with effects of their own may only move when nothing at all is evaluated between the table and the call)
+                    alone = not between and not call.args and len(call.keywords) == 1 and getattr(stmts[j], "value", None) is call
+                    if not (_stored(between) & (reads | {name})) and not (given & {k for k, _ in pairs}) and (alone or all(_pure(v) for _, v in pairs)):
+                        pos = call.keywords.index(kw)
+                        call.keywords[pos:pos + 1] = [ast.copy_location(ast.keyword(arg=k, value=v), v) for k, v in pairs]
+                        del stmts[i]
+                        ast.fix_missing_locations(func)
+                        continue
+            i += 1
+    block(func.body)
     return func
 
 
